@@ -33,5 +33,15 @@ pub assume_specification [HttpResponse::response_from_error] (e: Error) -> (r: H
 
 
 def build():
-    return build_file('cas.rs', 'c13_h_cas', 'route table /api/v1/cas/**: each facade call is dominated by proceed_permitted with the required permission for the addressed CA',
+    U = build_file('cas.rs', 'c13_h_cas', 'route table /api/v1/cas/**: each facade call is dominated by proceed_permitted with the required permission for the addressed CA',
                       skip=('index_get',), extra=extra)
+    # the CA listing filters inside a filter_map closure: the closure body (R15) decides which CAs the caller gets to see
+    from vxlib import Seg
+    U.struct('src/api/ca.rs', 'CertAuthSummary', derive=[])
+    U.add('pub assume_specification<T> [bool::then_some::<T>] (b: bool, t: T) -> (r: Option<T>) ensures r == (if b { Some(t) } else { None::<T> });')
+    U.free(U.closure_fn('src/daemon/http/dispatch/cas.rs', None, 'index_get', 0, 'vx_index_get_filter',
+                        '(handle: CaHandle, auth: &AuthInfo) -> (r: Option<CertAuthSummary>)',
+                        ensures=[('listed_iff_ca_read_on_that_ca', '(r is Some) <==> auth_allows(*auth, Permission::CaRead, Some(handle))'),
+                                 ('lists_the_ca_itself', 'r is Some ==> r->Some_0.handle == handle')]))
+    U.notes = [n for n in U.notes if 'index_get' not in n] + ['handler cas.rs::index_get: only its filter closure is verified (R15); the ca_handles()/collect glue is not']
+    return U
